@@ -80,9 +80,9 @@ type sRun struct {
 	passed bool
 }
 
-func runDigest(c benchcase.Case, dir, name string) sRun {
+func runDigest(c benchcase.Case, dir, name string, env ...string) sRun {
 	path := filepath.Join(dir, name+".json")
-	o := benchgen.RunWorker(c, []string{"BENCHRUN_DIGEST=" + path})
+	o := benchgen.RunWorker(c, append([]string{"BENCHRUN_DIGEST=" + path}, env...))
 	r := sRun{o: o}
 	r.passed = o.Harness == "" && !o.TimedOut && o.Exit == 0 && o.Signal == "" && strings.HasSuffix(strings.TrimSpace(o.Stdout), benchcase.PassMarker)
 	if raw, err := os.ReadFile(path); err == nil {
@@ -201,11 +201,28 @@ func RunSCase(sc SCase) (res stats.Result) {
 	}
 	res.NonTrivial = e.d != nil && e.d.Insts > 0 && e.d.D2HRequests > 0
 	known := func() {
-		// C02-K2 (= C01-K2): the L1 vector caches are never invalidated between kernel
-		// launches. Signature: emulation passes the workload's own verification, and the run
-		// launched at least three kernels (a line read, rewritten by another kernel, read again).
-		if e.passed && e.d != nil && e.d.Kernels >= 3 {
+		// C02-K2 (= C01-K2): the L1 vector and scalar caches are never invalidated between
+		// kernel launches. Causal signature: the timing run is repeated with the worker's
+		// diagnosis switch that makes every L1 vector/scalar cache forget its lines whenever a
+		// kernel launch command starts; the finding explains the divergence exactly when that
+		// run agrees with emulation in every compared respect. Only when the diagnosis run
+		// itself is inconclusive (time-out, crash) the broad signature applies: emulation
+		// passes the workload's own verification and the run launched at least three kernels.
+		if e.d == nil || e.d.Kernels < 2 {
+			return
+		}
+		x := runDigest(c, dir, "timing-l1-invalidated", "BENCHRUN_INVALIDATE_L1=1")
+		switch {
+		case x.o.Harness == "" && !x.o.TimedOut && x.d != nil && x.passed == e.passed && diffDigests(e.d, x.d) == "":
 			res.KnownID = "C02-K2"
+			res.Labels = append(res.Labels, "k2-confirmed-by-l1-invalidation")
+		case x.o.TimedOut || x.d == nil:
+			res.Labels = append(res.Labels, "k2-diagnosis-inconclusive")
+			if e.passed && e.d.Kernels >= 3 {
+				res.KnownID = "C02-K2"
+			}
+		default:
+			res.Labels = append(res.Labels, "not-explained-by-k2")
 		}
 	}
 	switch {
